@@ -57,6 +57,7 @@ type Run struct {
 	transitions int64
 	traces      int64
 	configs     []string
+	Rule        string
 }
 
 // Start begins a run; tier and seed come from the command line / environment.
@@ -179,6 +180,7 @@ func (r *Run) AddTLC(config string, generated, distinct int64) {
 	r.states += distinct
 	r.configs = append(r.configs, fmt.Sprintf("%s: %d generated / %d distinct", config, generated, distinct))
 	r.mu.Unlock()
+	r.Checkpoint()
 }
 
 // AddTraces counts real-code traces / records accepted by TLC.
@@ -209,11 +211,52 @@ func (r *Run) Add(k string, n int64) {
 // Assume records an assumption of the check.
 func (r *Run) Assume(s string) { r.Assumptions = append(r.Assumptions, s) }
 
+// Checkpoint writes the evidence collected so far (marked partial), so that a crash of the code
+// under test in a later phase still leaves a valid evidence file for the supervising process.
+func (r *Run) Checkpoint() {
+	r.mu.Lock()
+	r.Coverage["partial"] = true
+	r.mu.Unlock()
+	r.write(r.Rule)
+	r.mu.Lock()
+	delete(r.Coverage, "partial")
+	r.mu.Unlock()
+}
+
 // Finish writes the evidence file and returns the process exit code.
 func (r *Run) Finish(rule string) int {
+	if rule == "" {
+		rule = r.Rule
+	}
+	if !r.write(rule) {
+		return 2
+	}
 	r.mu.Lock()
 	defer r.mu.Unlock()
-	cov := r.Coverage
+	var kh []string
+	for k, n := range r.knownHits {
+		kh = append(kh, fmt.Sprintf("%s x%d", k, n))
+	}
+	sort.Strings(kh)
+	fmt.Printf("[%s %s] done in %.1fs: evaluations=%d distinct_nontrivial=%d states=%d transitions=%d traces=%d drift=%d known=%s violations=%d\n",
+		r.Prop, r.Tier, time.Since(r.start).Seconds(), r.evals, len(r.distinct), r.states, r.transitions, r.traces, r.drift,
+		strings.Join(kh, ","), r.violations)
+	if r.violations > 0 {
+		return 1
+	}
+	if len(r.inconcl) > 0 {
+		return 2
+	}
+	return 0
+}
+
+func (r *Run) write(rule string) bool {
+	r.mu.Lock()
+	defer r.mu.Unlock()
+	cov := map[string]interface{}{}
+	for k, v := range r.Coverage {
+		cov[k] = v
+	}
 	cov["evaluations"] = r.evals
 	cov["distinct_nontrivial"] = int64(len(r.distinct))
 	cov["rule"] = rule
@@ -222,16 +265,17 @@ func (r *Run) Finish(rule string) int {
 	cov["traces_validated_against_impl"] = r.traces
 	cov["tlc_configs"] = r.configs
 	cov["drift"] = r.drift
-	var kh []string
+	var khs []string
 	for k, n := range r.knownHits {
-		kh = append(kh, fmt.Sprintf("%s x%d", k, n))
+		khs = append(khs, fmt.Sprintf("%s x%d", k, n))
 	}
-	sort.Strings(kh)
-	cov["known_findings_hit"] = kh
-	if len(r.samples) == 0 {
-		r.samples = append(r.samples, "no sample recorded")
+	sort.Strings(khs)
+	cov["known_findings_hit"] = khs
+	samples := r.samples
+	if len(samples) == 0 {
+		samples = []interface{}{"no sample recorded yet"}
 	}
-	cov["samples"] = r.samples
+	cov["samples"] = samples
 	if len(r.inconcl) > 0 {
 		cov["inconclusive"] = r.inconcl
 	}
@@ -244,16 +288,38 @@ func (r *Run) Finish(rule string) int {
 	os.MkdirAll(filepath.Join(Root, "evidence"), 0o755)
 	if err := os.WriteFile(filepath.Join(Root, "evidence", r.Prop+".json"), b, 0o644); err != nil {
 		fmt.Println("cannot write evidence:", err)
-		return 2
+		return false
 	}
-	fmt.Printf("[%s %s] done in %.1fs: evaluations=%d distinct_nontrivial=%d states=%d transitions=%d traces=%d drift=%d known=%s violations=%d\n",
-		r.Prop, r.Tier, time.Since(r.start).Seconds(), r.evals, len(r.distinct), r.states, r.transitions, r.traces, r.drift,
-		strings.Join(kh, ","), r.violations)
-	if r.violations > 0 {
-		return 1
+	return true
+}
+
+// AmendCrash is used by the supervising process when the check process died: the last checkpoint
+// (or an empty record) gets the crash as a violation. Returns the path of the replay file.
+func AmendCrash(prop, tier string, seed int64, sig, output string) string {
+	path := filepath.Join(Root, "evidence", prop+".json")
+	evd := map[string]interface{}{}
+	if b, err := os.ReadFile(path); err == nil {
+		json.Unmarshal(b, &evd)
 	}
-	if len(r.inconcl) > 0 {
-		return 2
+	cov, _ := evd["coverage"].(map[string]interface{})
+	if cov == nil {
+		cov = map[string]interface{}{"evaluations": 1, "distinct_nontrivial": 0, "rule": "the check process crashed before its first checkpoint", "samples": []interface{}{sig}}
 	}
-	return 0
+	cov["crash"] = sig
+	evd["property_id"], evd["tier"], evd["seed"], evd["level"], evd["coverage"] = prop, tier, seed, "model_checking", cov
+	if _, ok := evd["wall_s"]; !ok {
+		evd["wall_s"] = 0.0
+	}
+	v, _ := evd["violations"].(float64)
+	evd["violations"] = int(v) + 1
+	b, _ := json.MarshalIndent(evd, "", " ")
+	os.MkdirAll(filepath.Join(Root, "evidence"), 0o755)
+	os.WriteFile(path, b, 0o644)
+	rb, _ := json.MarshalIndent(map[string]interface{}{"property": prop, "signature": sig, "tier": tier, "seed": seed, "crash_output": output}, "", " ")
+	h := sha1.Sum(rb)
+	dir := filepath.Join(Root, "replays", prop)
+	os.MkdirAll(dir, 0o755)
+	rp := filepath.Join(dir, "crash-"+hex.EncodeToString(h[:6])+".json")
+	os.WriteFile(rp, rb, 0o644)
+	return rp
 }
